@@ -8,5 +8,6 @@ CONSTANT Pkts = {0}
 CONSTANT MaxFrames = 5
 CONSTANT MaxCalls = 2
 CONSTANT KMax = 4
+CONSTANT Refilters = {0, 1}
 CONSTRAINT Emit
 CHECK_DEADLOCK FALSE
